@@ -156,7 +156,7 @@ where
                 //   v = u - w  =>  [umin - wmax .. umax - wmin]
                 //
                 // The constraint is not dropped until all variables converge into numbers.
-                Ok(state
+                let state = state
                     .process_domain(
                         &wwalk,
                         Rc::new(FiniteDomain::from(
@@ -174,8 +174,18 @@ where
                         Rc::new(FiniteDomain::from(
                             umin.saturating_sub(wmax)..=umax.saturating_sub(wmin),
                         )),
-                    )?
-                    .with_constraint(self))
+                    )?;
+
+                // Narrowing may have bound an operand of this constraint to a value. The bounds
+                // above were computed before that: propagate again with the new values.
+                if [uwalk, vwalk, wwalk]
+                    .iter()
+                    .any(|t| t.is_var() && state.smap_ref().contains_key(t))
+                {
+                    self.run(state)
+                } else {
+                    Ok(state.with_constraint(self))
+                }
             }
             // If all operators do not yet have domains, then keep the constraint until it can
             // be used to constrain some domains.
